@@ -1,17 +1,88 @@
 import EpdVerif.Drivers.Dsl
 import EpdVerif.Gen.Epd1in54_v2
-/-! model of `src/epd1in54_v2/mod.rs` (STUB: programs not yet transcribed) -/
+import EpdVerif.Gen.Type_a
+/-! model of `src/epd1in54_v2/mod.rs` -/
 namespace EpdVerif.Drivers.Epd1in54_v2
 open EpdVerif
 open EpdVerif.Gen.Epd1in54_v2
+open EpdVerif.Gen.Type_a hiding LUT_PARTIAL_UPDATE
 
-def prog (_f : Feat) (_d : DState) : Op → Option (List Act)
+def W : Act := .wait IS_BUSY_LOW
+
+/-- `set_ram_area`: wait, the two asserts, then the X and Y windows -/
+def setRamArea (sx sy ex ey : Nat) : List Act :=
+  [W] ++ assertA (sx < ex) ++ assertA (sy < ey) ++
+  cmdData Command.SetRamXAddressStartEndPosition [shr8 sx 3, shr8 ex 3] ++
+  cmdData Command.SetRamYAddressStartEndPosition [u8 sy, shr8 sy 8, u8 ey, shr8 ey 8]
+
+def setRamCounter (x y : Nat) : List Act :=
+  [W] ++ cmdData Command.SetRamXAddressCounter [shr8 x 3] ++
+  cmdData Command.SetRamYAddressCounter [u8 y, shr8 y 8]
+
+def useFullFrame : List Act := setRamArea 0 0 (WIDTH - 1) (HEIGHT - 1) ++ setRamCounter 0 0
+
+/-- `set_lut_helper`: the 159-byte table is cut into LUT, end option, gate, source, vcom -/
+def setLutHelper (t : Bytes) : List Act :=
+  [W] ++ assertA (t.length = 159) ++
+  cmdData Command.WriteLutRegister (t.take 153) ++
+  cmdData Command.WriteLutRegisterEnd [t.getD 153 0] ++
+  [W] ++
+  cmdData Command.GateDrivingVoltage [t.getD 154 0] ++
+  cmdData Command.SourceDrivingVoltage [t.getD 155 0, t.getD 156 0, t.getD 157 0] ++
+  cmdData Command.WriteVcomRegister [t.getD 158 0]
+
+def setLut (d : DState) (r : Option Refresh) : List Act :=
+  (match r with | some m => [Act.upd (fun d => { d with refresh := m })] | none => []) ++
+  (match r.getD d.refresh with
+   | .full => setLutHelper LUT_FULL_UPDATE
+   | .quick =>
+     setLutHelper LUT_PARTIAL_UPDATE ++
+     cmdData Command.WriteOtpSelection [0x0, 0x0, 0x0, 0x0, 0x0, 0x40, 0x0, 0x0, 0x0, 0x0] ++
+     cmdData Command.BorderWaveformControl [0x80] ++
+     cmdData Command.DisplayUpdateControl2 [0xc0] ++
+     [.cmd Command.MasterActivation, .cmd Command.Nop])
+
+def init (d : DState) : List Act :=
+  [.reset 10000 10000, W, .cmd Command.SwReset, W] ++
+  cmdData Command.DriverOutputControl [u8 (HEIGHT - 1), 0x0, 0x00] ++
+  cmdData Command.DataEntryModeSetting [0x3] ++
+  setRamArea 0 0 (WIDTH - 1) (HEIGHT - 1) ++
+  cmdData Command.TemperatureSensorSelection [0x80] ++
+  cmdData Command.TemperatureSensorControl [0xB1, 0x20] ++
+  setRamCounter 0 0 ++
+  setLut d none ++ [W]
+
+def updateFrame (b : Bytes) : List Act := [W] ++ useFullFrame ++ cmdData Command.WriteRam b
+
+def displayFrame (d : DState) : List Act :=
+  [W] ++
+  (match d.refresh with
+   | .full => cmdData Command.DisplayUpdateControl2 [0xC7]
+   | .quick => cmdData Command.DisplayUpdateControl2 [0xCF]) ++
+  [.cmd Command.MasterActivation, .cmd Command.Nop]
+
+def prog (_f : Feat) (d : DState) : Op → Option (List Act)
+  | .new => some (init d)
+  | .wake => some (init d)
+  | .sleep => some ([W] ++ cmdData Command.DeepSleepMode [0x01])
+  | .upd b => some (updateFrame b)
+  | .part b x y w h =>
+    some ([W] ++ setRamArea x y (x + w) (y + h) ++ setRamCounter x y ++ cmdData Command.WriteRam b)
+  | .disp => some (displayFrame d)
+  | .updisp b => some (updateFrame b ++ displayFrame d)
+  | .clear =>
+    some ([W] ++ useFullFrame ++
+      [.cmd Command.WriteRam, .rep (byteValue d.bg) (WIDTH / 8 * HEIGHT),
+       .cmd Command.WriteRam2, .rep (byteValue d.bg) (WIDTH / 8 * HEIGHT)])
+  | .bg c => some [.upd (fun d => { d with bg := c })]
+  | .lut r => some (setLut d r)
+  | .wait => some [W]
   | _ => none
 
 def panel (f : Feat) : Panel :=
   { name := "epd1in54_v2", width := WIDTH, height := HEIGHT, single := SINGLE_BYTE_WRITE,
     busyLow := IS_BUSY_LOW, family := .ssd, colors := 2,
-    init := { bg := DEFAULT_BACKGROUND_COLOR },
+    init := { bg := DEFAULT_BACKGROUND_COLOR, refresh := .full },
     prog := prog f,
     ctrl := .ssd (Ssd.por false 25 200) }
 
